@@ -152,6 +152,11 @@ def pop_propagator(triggered_propagators: NDArray, previous_prop_idx: int) -> in
         if triggered_propagators[prop_idx] and prop_idx != previous_prop_idx:
             triggered_propagators[prop_idx] = False
             return prop_idx
+    if previous_prop_idx >= 0 and triggered_propagators[previous_prop_idx]:
+        # the previous propagator has modified its own variables and nothing else is pending:
+        # it has to be filtered again because a propagator is not necessarily idempotent
+        triggered_propagators[previous_prop_idx] = False
+        return previous_prop_idx
     return -1
 
 
